@@ -1,8 +1,22 @@
 (** C11 — comparison of implementation observations with the model (run by checks/c11.py):
     [chk_*] : inputs + what the real operators / the engine returned -> bool (model == impl),
     [k_*]   : the finding classes, evaluated on the failing input. *)
-From GV Require Export Query.Stream.
+From GV Require Export Query.Stream Query.StreamAgg Query.StreamSort.
 Open Scope Z_scope.
+
+(** * which proposed repairs are in /repo
+    Each open finding with a prepared repair (proposed-fixes/C11-*.diff) has BOTH transcriptions in
+    Stream.v.  After the integrator commits a repair he flips the flag here (and sets the finding
+    to "fixed" in known.d/C11.json): the run then compares the engine with the repaired
+    transcription, for which the corresponding [_fix] theorem of Props_C11.v holds. *)
+Definition fix_k2_applied : bool := false.   (* C11-gql-skip-limit-order.diff *)
+Definition fix_k3_applied : bool := false.   (* C11-return-distinct.diff *)
+Definition fix_k5_applied : bool := false.   (* C11-distinct-chunk.diff *)
+Definition drain_distinct_now (cs : list chunk) : list chunk :=
+  if fix_k5_applied then drain_distinct_fix cs else drain_distinct cs.
+Definition window_query_now (l : lang) := if fix_k2_applied then window_query_fix l else window_query l.
+Definition count_query_now (l : lang) := if fix_k2_applied then count_query_fix l else count_query l.
+Definition return_distinct_query_now := if fix_k3_applied then return_distinct_query_fix else return_distinct_query.
 
 Definition ovalue_eqb : option value -> option value -> bool := option_eqb value_eqb.
 Definition row_eqb : row -> row -> bool := list_eqb value_eqb.
@@ -54,10 +68,10 @@ Definition chk_window_rows (k : winkind) (s n : Z) (cs : list chunk) (obs : list
   rows_eqb (rows_of (run_window k s n cs)) obs.
 
 Definition chk_distinct (cs : list chunk) (obs : list row) : bool :=
-  rows_eqb (rows_of (drain_distinct cs)) obs.
+  rows_eqb (rows_of (drain_distinct_now cs)) obs.
 Definition chk_distinct_mod (m : Z) (specs : list (Z * option (list (Z * Z)))) (obs : list Z) : bool :=
-  rows_eqb (rows_of (drain_distinct (mk_chunks (f_mod m) 0 specs))) (int_rows_of obs).
-Definition show_distinct (cs : list chunk) := rows_of (drain_distinct cs).
+  rows_eqb (rows_of (drain_distinct_now (mk_chunks (f_mod m) 0 specs))) (int_rows_of obs).
+Definition show_distinct (cs : list chunk) := rows_of (drain_distinct_now cs).
 
 Definition chk_union (inputs : list (list chunk)) (obs : list row) : bool :=
   rows_eqb (rows_of (drain_union inputs)) obs.
@@ -72,6 +86,43 @@ Definition chk_hash_agg_mod (m : Z) (specs : list (Z * option (list (Z * Z)))) (
   rows_eqb (rows_of (drain_hash_agg [0%nat] [AggCountStar] (mk_chunks (f_mod m) 0 specs))) obs.
 Definition show_hash_agg (gcols : list nat) (aggs : list aggfn) (cs : list chunk) :=
   rows_of (drain_hash_agg gcols aggs cs).
+
+(** aggregates beyond COUNT: [obs = None] stands for a panic of the operator *)
+Definition ores_eqb (r : res (list row)) (obs : option (list row)) : bool :=
+  match r, obs with
+  | Ok rows, Some o => rows_eqb rows o
+  | Panic, None => true
+  | _, _ => false
+  end.
+Definition chk_simple_agg2 (aggs : list aggf) (tys : list ltype) (cs : list chunk) (obs : option (list row)) : bool :=
+  ores_eqb (simple_agg2 Checked aggs tys cs) obs.
+Definition chk_hash_agg2 (gcols : list nat) (aggs : list aggf) (tys : list ltype) (cs : list chunk)
+           (obs : option (list row)) : bool :=
+  ores_eqb (hash_agg2 Checked gcols aggs tys cs) obs.
+Definition show_simple_agg2 (aggs : list aggf) (tys : list ltype) (cs : list chunk) := simple_agg2 Checked aggs tys cs.
+Definition show_hash_agg2 (gcols : list nat) (aggs : list aggf) (tys : list ltype) (cs : list chunk) :=
+  hash_agg2 Checked gcols aggs tys cs.
+(** big inputs: one integer column [i mod m - off], SUM / MIN / MAX / AVG / COUNT over it *)
+Definition f_modoff (m off : Z) (i : Z) : row := [VInt (i mod m - off)].
+Definition chk_simple_agg2_mod (m off : Z) (aggs : list aggf) (tys : list ltype)
+           (specs : list (Z * option (list (Z * Z)))) (obs : option (list row)) : bool :=
+  ores_eqb (simple_agg2 Checked aggs tys (mk_chunks (f_modoff m off) 0 specs)) obs.
+
+(** Sort: rows and the shape of the output *)
+Definition chk_sort (keys : list skey) (cs : list chunk) (obs : list row) (obs_counts : list Z) : bool :=
+  let out := drain_sort keys cs in
+  rows_eqb (rows_of out) obs && zlist_eqb (map row_count out) obs_counts.
+Definition show_sort (keys : list skey) (cs : list chunk) := rows_of (drain_sort keys cs).
+(** big inputs: rows [(a * i) mod m; i] sorted on column 0 (then 1); observed = column 1 *)
+Definition f_perm2 (a m g : Z) (i : Z) : row := [VInt (((a * i) mod m) / g); VInt i].
+Definition chk_sort_perm (keys : list skey) (a m g : Z) (specs : list (Z * option (list (Z * Z))))
+           (obs : list Z) (obs_counts : list Z) : bool :=
+  let out := drain_sort keys (mk_chunks (f_perm2 a m g) 0 specs) in
+  zlist_eqb (map (fun r => match r with [_; VInt i] => i | _ => -1 end) (rows_of out)) obs
+  && zlist_eqb (map row_count out) obs_counts.
+(** ... and the consistency of the comparator on the input (small inputs) *)
+Definition sort_consistent (keys : list skey) (cs : list chunk) : bool :=
+  cmp_consistent (rows_cmp keys) (rows_of cs).
 
 (** * engine level: a node table [tab] (node number -> properties), the scan order [scan]
       (node numbers as returned by the base query) *)
@@ -112,23 +163,44 @@ Definition spec_stacked (tab : list env) (scan : list Z) (p1 p2 : expr) : list r
   filter (row_passes fa_none (tab_env tab) p2) (filter (row_passes fa_none (tab_env tab) p1) (int_rows_of scan)).
 
 Definition chk_eng_window (l : lang) (ord : bool) (s n : option Z) (keys : list Z) (obs : list Z) : bool :=
-  zlist_eqb (ids_of (window_query l ord s n (int_rows_of keys))) obs.
+  zlist_eqb (ids_of (window_query_now l ord s n (int_rows_of keys))) obs.
 (** big tables: the keys are [perm a m i = (a * i) mod m] for i < m, the answer is given as runs
     when it is unordered-by-scan (not used) or as a plain list *)
 Definition chk_eng_window_perm (l : lang) (ord : bool) (s n : option Z) (a m : Z) (obs : list Z) : bool :=
-  zlist_eqb (ids_of (window_query l ord s n (int_rows_of (perm_keys a m)))) obs.
+  zlist_eqb (ids_of (window_query_now l ord s n (int_rows_of (perm_keys a m)))) obs.
 Definition chk_eng_count (l : lang) (s n : option Z) (nrows : Z) (obs : list row) : bool :=
-  rows_eqb (count_query l s n (int_rows_of (map Z.of_nat (seq 0 (Z.to_nat nrows))))) obs.
+  rows_eqb (count_query_now l s n (int_rows_of (map Z.of_nat (seq 0 (Z.to_nat nrows))))) obs.
 
 (** DISTINCT and GROUP BY on one projected value per node, [vals] in scan order *)
 Definition chk_eng_return_distinct (vals : list value) (obs : list row) : bool :=
-  rows_eqb (return_distinct_query (map (fun v => [v]) vals)) obs.
+  rows_eqb (return_distinct_query_now (map (fun v => [v]) vals)) obs.
 Definition chk_eng_with_distinct (vals : list value) (obs : list row) : bool :=
   rows_eqb (with_distinct_query (map (fun v => [v]) vals)) obs.
 Definition chk_eng_group_count (vals : list value) (obs : list row) : bool :=
   rows_eqb (rows_of (drain_hash_agg [0%nat] [AggCountStar] (scan_chunks (map (fun v => [v]) vals)))) obs.
 Definition chk_eng_union (a b : list Z) (obs : list Z) : bool :=
   zlist_eqb (ids_of (rows_of (drain_union [scan_chunks (int_rows_of a); scan_chunks (int_rows_of b)]))) obs.
+
+(** [MATCH (n:L) RETURN f(n.p)] / [RETURN n.g, f(n.p)]: [vals] = the projected (group, argument)
+    values in scan order; the planner's output types *)
+Definition agg_rows (vals : list (value * value)) : list row := map (fun p => [fst p; snd p]) vals.
+Definition chk_eng_agg (f : aggf) (vals : list (value * value)) (obs : option (list row)) : bool :=
+  ores_eqb (simple_agg2 Checked [f] [planner_type f] (scan_chunks (agg_rows vals))) obs.
+Definition chk_eng_group_agg (f : aggf) (vals : list (value * value)) (obs : option (list row)) : bool :=
+  ores_eqb (hash_agg2 Checked [0%nat] [f] [planner_type f] (scan_chunks (agg_rows vals))) obs.
+Definition show_eng_agg (f : aggf) (vals : list (value * value)) :=
+  (simple_agg2 Checked [f] [planner_type f] (scan_chunks (agg_rows vals)),
+   hash_agg2 Checked [0%nat] [f] [planner_type f] (scan_chunks (agg_rows vals))).
+(** the aggregate without the typed vector (what the functions compute) *)
+Definition agg_untyped (f : aggf) (vals : list (value * value)) : res (list row) :=
+  simple_agg2 Checked [f] [TAny] (scan_chunks (agg_rows vals)).
+
+(** [ORDER BY k1 [DESC], k2 ...] over projected rows; observed = the last column (node number) *)
+Definition chk_eng_sort (keys : list skey) (rows : list row) (s n : option Z) (obs : list Z) : bool :=
+  zlist_eqb (map (fun r => match last r VNull with VInt i => i | _ => -1 end)
+                 (rows_of (opt_limit n (opt_skip s (drain_sort keys (scan_chunks rows)))))) obs.
+Definition show_eng_sort (keys : list skey) (rows : list row) (s n : option Z) :=
+  rows_of (opt_limit n (opt_skip s (drain_sort keys (scan_chunks rows)))).
 
 (** * finding classes *)
 (** structural first-occurrence dedup: the specification of DISTINCT *)
@@ -191,3 +263,15 @@ Definition k_range_path (tab : list env) (scan : list Z) (p : expr) : bool :=
   end.
 (** K7: GQL text [Q1 UNION ALL Q2] with a non-empty second branch *)
 Definition k_gql_union (b : list Z) : bool := negb (zlist_eqb b []).
+(** K9: an aggregate result whose type is not the planner's guess for the output vector *)
+Definition k_agg_typed (f : aggf) (vals : list (value * value)) : bool :=
+  match agg_untyped f vals with
+  | Ok [[v]] => negb (type_okb (planner_type f) v)
+  | _ => false
+  end.
+(** K10: SUM over Int64 overflows *)
+Definition k_sum_overflow (f : aggf) (vals : list (value * value)) : bool :=
+  match f, agg_untyped f vals with
+  | FSum _, Panic => true
+  | _, _ => false
+  end.
